@@ -70,6 +70,22 @@ pub fn simplify_case(cx: &mut Ctx, n: u64, case: &Value) {
         coords_eq(cx, "rdp_coords_f32", "LineString<f32>::simplify(0)", guard(|| back(lf.simplify(0.0))), Ok(all.clone()), &[all.clone()]);
         coords_eq(cx, "vw_coords_f32", "LineString<f32>::simplify_vw(-1)", guard(|| back(lf.simplify_vw(-1.0))), Ok(all.clone()), &[all.clone()]);
     }
+    // far from the origin, with coordinates that are not integers (translated by a decimal offset; whatever the rounding of the
+    // sums gives IS the input): the result is still a subsequence of exactly these coordinates with both ends, and the index
+    // variant names exactly the coordinates the coordinate variant returns (WHICH vertices are kept is not judged here: a distance
+    // or area that equals eps exactly on the lattice is decided by rounding after the translation)
+    for (ox, oy) in [(8_238_310.24f64, -4_942_194.78f64), (-2_097_153.3, 1_048_577.1)] {
+        let far: Vec<Coord<f64>> = cs.iter().map(|c| Coord { x: c.x + ox, y: c.y + oy }).collect();
+        let lf = LineString::new(far.clone());
+        let pickf = |idx: &[usize]| -> Vec<Coord<f64>> { idx.iter().map(|i| far[*i]).collect() };
+        let (ri, vi) = (guard(|| lf.simplify_idx(eps)), guard(|| lf.simplify_vw_idx(eps)));
+        let (rc, vc) = (guard(|| lf.simplify(eps).0), guard(|| lf.simplify_vw(eps).0));
+        let shape = |i: &Vec<usize>| i.windows(2).all(|w| w[0] < w[1]) && (far.is_empty() && i.is_empty() || !far.is_empty() && i.first() == Some(&0) && i.last() == Some(&(far.len() - 1)));
+        let ok_r = matches!((&ri, &rc), (Ok(i), Ok(c)) if *c == pickf(i) && shape(i));
+        let ok_v = matches!((&vi, &vc), (Ok(i), Ok(c)) if *c == pickf(i) && shape(i));
+        if ok_r { cx.ok("rdp_far_from_origin"); } else { cx.bad("C09", "rdp_far_from_origin", case, json!({"what": format!("input translated by ({ox}, {oy}): simplify / simplify_idx"), "idx": format!("{ri:?}"), "coords": format!("{rc:?}"), "admissible": rdp})); }
+        if ok_v { cx.ok("vw_far_from_origin"); } else { cx.bad("C09", "vw_far_from_origin", case, json!({"what": format!("input translated by ({ox}, {oy}): simplify_vw / simplify_vw_idx"), "idx": format!("{vi:?}"), "coords": format!("{vc:?}"), "admissible": vw})); }
+    }
     // MultiLineString: member-wise
     let mls = MultiLineString::new(vec![ls.clone(), ls.clone()]);
     coords_eq(cx, "rdp_multi", "MultiLineString::simplify", guard(|| mls.simplify(eps).0[1].0.clone()), guard(|| ls.simplify_idx(eps)), &rdp);
